@@ -46,6 +46,14 @@ def run(tier):
         fail_obligations(rep, [o for o in obs if 'send_frame' in (o['msg'] or '') or o['fn'] in ('setLltdHeader', 'setLltdHeaderEx', 'setHelloHeader')],
                          'R02.6', kinds=('bounds',))
     rep.analysed.update({'send_effects_examined': nsend, 'modes': ['mtu from port' if m else 'mtu fallback 1500' for m in modes]})
+    # the QueryResp's count field is read from the recorded count, its descriptors from the list: "length = 34 + 20 x count"
+    # holds for every history only if count = list length is maintained - the bookkeeping obligations of C07 (linking adds
+    # exactly one, reporting subtracts what it releases, nothing else touches list or count, no link of a listed node is
+    # rewritten), re-decided under this property
+    from .c07 import decide as list_decide, RuleView
+    from .automata_common import load_core
+    rep.rule('R02.7', 'the observation count the QueryResp announces is the length of the list it serialises (bookkeeping obligations R07.f/g/j)', floor=40)
+    list_decide(RuleView(rep, {r: 'R02.7' for r in ('R07.f', 'R07.g', 'R07.j')}), load_core('systemd'))
     return finish(rep, 'proof',
                   'All send_frame effects of the complete dispatch matrix (ToS and opcode as full byte sets; every path incl. fault paths) are examined: cell, count, '
                   'header byte origins, per-opcode structure (Hello TLV chain parsed over symbolic offsets), initialisation of every byte below the length, length bound.',
